@@ -341,9 +341,6 @@ def gen_parallel_rlc(rng, ic, kinds):
         b.add('R', ['1', '0'], 1 / (-sm * c))
     b.react('L', ['1', '0'] if rng.random() < 0.5 else ['0', '1'], lval)
     b.react('C', ['1', '0'] if rng.random() < 0.5 else ['0', '1'], c)
-    if rng.random() < 0.4:
-        # series resistor with the source does not move the poles of a current-driven network
-        b.add('R', ['1', '0'], 1 / (-sm * c)) if False else None
     return b.case('parallel-rlc:' + pk[0], pk[0])
 
 
@@ -498,7 +495,52 @@ def gen_random(rng, ic, kinds, maxreact):
     return None
 
 
+def gen_switched(rng):
+    """dc-driven circuit with one switch operated at t = 0; the state at 0- is the dc steady state of the pre-switch circuit"""
+    A = sv(rng)
+    r1, r2, r3 = rv(rng), rv(rng), rv(rng)
+    sw_type = rng.choice(['no', 'nc'])
+    shape = rng.choice(['series-switch', 'series-switch', 'short-across', 'two-caps', 'rlc'])
+    lines = ['V1 1 0 dc %s' % fs(A), 'R1 1 2 %s' % fs(r1)]
+    if shape == 'series-switch':
+        re = rng.choice(['C', 'L'])
+        lines += ['SW1 2 3 %s 0' % sw_type, '%s1 3 0 %s' % (re, fs(rv(rng))), 'R2 %s 0 %s' % (rng.choice(['2', '3']), fs(r2))]
+        if rng.random() < 0.4:
+            lines.append('R3 3 0 %s' % fs(r3))
+    elif shape == 'short-across':
+        re = rng.choice(['C', 'L'])
+        if re == 'L':
+            lines += ['L1 2 3 %s' % fs(rv(rng)), 'R2 3 0 %s' % fs(r2), 'SW1 3 0 %s 0' % sw_type]
+        else:
+            lines += ['C1 2 0 %s' % fs(rv(rng)), 'R2 2 3 %s' % fs(r2), 'R3 3 0 %s' % fs(r3), 'SW1 3 0 %s 0' % sw_type]
+    elif shape == 'two-caps':
+        lines += ['C1 2 0 %s' % fs(rv(rng)), 'SW1 2 3 no 0', 'C2 3 0 %s' % fs(rv(rng)), 'R2 3 0 %s' % fs(r2)]
+        sw_type = 'no'
+    else:
+        # the source is disconnected at t = 0 and a series RLC loop with chosen natural frequencies rings down
+        pk = pick_poles(rng)
+        sm, pr = sum_prod(pk)
+        if sm == 0:
+            pk = ('real', Fraction(-1), Fraction(-2))
+            sm, pr = sum_prod(pk)
+        l = Fraction(1)
+        rr = -sm * l
+        c = 1 / (l * pr)
+        al = rng.choice([Fraction(1, 2), Fraction(1, 3)])
+        sw_type = 'nc'
+        lines = ['V1 1 0 dc %s' % fs(A), 'SW1 1 2 nc 0', 'R1 2 3 %s' % fs(rr * al), 'L1 3 4 %s' % fs(l), 'C1 4 0 %s' % fs(c),
+                 'R2 2 0 %s' % fs(rr * (1 - al))]
+    return {'template': 'switched-' + shape, 'switched': lines, 'sw_type': sw_type, 'waves': ['dc'], 'poles': 'unknown', 'whole_axis': False}
+
+
+def switch_line(l, closed):
+    w = l.split()
+    return ('W %s %s' % (w[1], w[2])) if closed else ('O %s %s' % (w[1], w[2]))
+
+
 def gen_case(rng):
+    if rng.random() < 0.12:
+        return gen_switched(rng)
     ic = rng.random() < 0.45
     whole = (not ic) and rng.random() < 0.2
     kinds = WHOLE_KINDS if whole else CAUSAL_KINDS
@@ -647,7 +689,7 @@ def run(chk, replay=None):
         chk.count('result-form', 'guarded' if guarded else ('whole-axis' if has_pre else 'causal'))
         assign = ' | '.join('%s %s' % (k, sig_tokens(sg)) for k, sg in sigs.items())
         reported = ' | '.join('%s %s' % (k, sig_tokens(sg)) for k, sg in rep.items())
-        jcase = {k: case[k] for k in ('template', 'lines', 'lcapy', 'has_ic', 'waves', 'poles', 'whole_axis') if k in case}
+        jcase = {k: case[k] for k in ('template', 'lines', 'lcapy', 'has_ic', 'waves', 'poles', 'whole_axis', 'switched') if k in case}
         lc_out = {k: sg['text'] for k, sg in list(sigs.items())}
         if idx < 4:
             chk.sample({'netlist': case['lcapy'], 'signals': lc_out, 'items': {k: sig_tokens(sg) for k, sg in sigs.items()}})
@@ -739,13 +781,89 @@ def run(chk, replay=None):
             chk.coverage['correspondence']['disagreements'] += 1
             disagreements.append({'case': jcase, 's': fstr(smp.s), 'reply': v6[:300], 'lcapy': lc_out})
 
+    def resolve_switched(case):
+        """switched circuit -> the initial-value problem for t >= 0: model lines carry the state computed by the Lean C01 model
+        (dc analysis of the pre-switch circuit); Lcapy's lines are those of its own `convert_IVP(0)`"""
+        pre, post = [], []
+        for l in case['switched']:
+            if l.startswith('SW'):
+                was_closed = l.split()[3] == 'nc'
+                pre.append(switch_line(l, was_closed))
+                post.append(switch_line(l, not was_closed))
+            else:
+                pre.append(l)
+                post.append(l)
+        rep = drv.ask1('mna.solve dc || %s' % ' || '.join(pre))
+        if not rep.startswith('ok'):
+            chk.count('degenerate', 'switched:pre-switch-dc-' + rep.split(' ')[0][:30])
+            return None
+        sol = {'V': {'0': Fraction(0)}, 'J': {}, 'I': {}}
+        mode = None
+        for tok in rep.split(' ')[1:]:
+            if tok in sol:
+                mode = tok
+                continue
+            k, v = tok.split('=')
+            if ',' in v or v == 'undef':
+                return None
+            sol[mode][k] = Fraction(v)
+        lines = []
+        for l in post:
+            w = l.split()
+            if w[0].startswith('C'):
+                lines.append('%s %s' % (l, fs(sol['V'][w[1]] - sol['V'][w[2]])))
+            elif w[0].startswith('L'):
+                lines.append('%s %s' % (l, fs(sol['J'][w[0]])))
+            elif w[0].startswith('V'):
+                a = fstr(Fraction(w[4].strip('{}')))
+                lines.append('%s %s %s sig pre %s 0 0 ep %s 0 0 0' % (w[0], w[1], w[2], a, a))
+            else:
+                lines.append(l)
+        try:
+            with common.time_limit(30):
+                ivp = Circuit('\n'.join(case['switched'])).convert_IVP(0)
+                ltxt = [x.strip() for x in str(ivp).split('\n') if x.strip()]
+        except common.TimeLimit:
+            chk.count('degenerate', 'switched:time-limit')
+            return None
+        except Exception as ex:   # noqa
+            chk.count('degenerate', 'switched:convert_IVP-' + type(ex).__name__)
+            return None
+        out = dict(case)
+        out.update({'lines': lines, 'lcapy': ltxt, 'has_ic': True})
+        # hand-over of the state: Lcapy's initial conditions against the model's pre-switch dc solution
+        want = {l.split()[0]: l.split()[4] for l in lines if l[0] in 'CL' and len(l.split()) == 5}
+        got = {}
+        for l in ltxt:
+            w = l.split()
+            if w[0][0] in 'CL' and w[0] in want:
+                got[w[0]] = w[4] if len(w) >= 5 else '0'
+        for nm, wv in want.items():
+            gv = got.get(nm)
+            try:
+                same = gv is not None and Fraction(gv.strip('{}')) == Fraction(wv.strip('{}'))
+            except Exception:   # noqa
+                same = False
+            if not same:
+                ncex[0] += 1
+                chk.counterexample({'template': case['template'], 'kind': 'state-handover', 'cpt': nm[0]},
+                                   {'input': {'case': {k: out[k] for k in ('template', 'switched', 'lines', 'lcapy', 'has_ic', 'waves', 'poles', 'whole_axis')}},
+                                    'lcapy': ltxt, 'spec': '%s starts from %s (dc steady state of the pre-switch circuit)' % (nm, wv)},
+                                   'convert_IVP hands over %s = %s, the pre-switch solution at the switching instant gives %s' % (nm, gv, wv))
+            else:
+                chk.count('oracle', 'state-handover-ok')
+        return out
+
     t0 = time.time()
     if replay:
         rp = json.load(open(replay if os.path.isabs(replay) else os.path.join(common.VERIF, replay)))
         case = rp.get('input', {}).get('case')
         if case:
-            chk.coverage['replayed'] = case['lcapy']
-            one(case, 0)
+            if 'switched' in case and 'lines' not in case:
+                case = resolve_switched(case)
+            if case:
+                chk.coverage['replayed'] = case['lcapy']
+                one(case, 0)
     else:
         corpus_dir = os.path.join(common.VERIF, 'corpus', 'C02')
         idx = 0
@@ -759,6 +877,9 @@ def run(chk, replay=None):
                 chk.coverage['stopped_on_budget_after'] = idx
                 break
             case = gen_case(rng)
+            if case is not None and 'switched' in case:
+                chk.count('template', case['template'] + ':' + case['sw_type'])
+                case = resolve_switched(case)
             if case is None:
                 continue
             one(case, idx)
